@@ -45,7 +45,7 @@ type dsShape struct {
 	Labeled bool   // second file given as label=path
 	Blocks  string // "a", "ab" (goos a then goos b), "notes" (goos a note x, goos a note y)
 	Benches int    // 1..3 of A, B/k=1, B/k=2-4
-	Units   string // "ns", "ns+B", "ns+x" (x/op with assume=exact), "ns+alt" (second unit alternates between lines), "ns|sec" / "sec|ns" (one file writes ns/op, the other sec/op)
+	Units   string // "ns", "ns+B", "ns+x" (x/op with assume=exact), "ns+alt" (second unit alternates between lines), "ns|sec" / "sec|ns" (one file writes ns/op, the other sec/op), "ns+Bnew" (the first benchmark reports B/op in the second file only)
 	Reps    int
 	Pattern string // "shifted", "equal", "zero", "negative"
 	Missing bool   // the last benchmark is missing from the second file
@@ -62,7 +62,7 @@ var dsCollideNames = []string{"A", "B/k=11", "B1/k=1"}
 
 func (s dsShape) build() dataset {
 	var ds dataset
-	units := map[string][]string{"ns": {"ns/op"}, "ns+B": {"ns/op", "B/op"}, "ns+x": {"ns/op", "x/op"}, "ns+alt": {"ns/op", "B/op"}, "ns|sec": {"ns/op"}, "sec|ns": {"ns/op"}}[s.Units]
+	units := map[string][]string{"ns": {"ns/op"}, "ns+B": {"ns/op", "B/op"}, "ns+x": {"ns/op", "x/op"}, "ns+alt": {"ns/op", "B/op"}, "ns|sec": {"ns/op"}, "sec|ns": {"ns/op"}, "ns+Bnew": {"ns/op", "B/op"}}[s.Units]
 	if s.Units == "ns+x" {
 		ds.UnitMeta = []string{"Unit x/op assume=exact"}
 	}
@@ -101,6 +101,12 @@ func (s dsShape) build() dataset {
 					inSec := (s.Units == "ns|sec" && fi == 1) || (s.Units == "sec|ns" && fi == 0)
 					if inSec {
 						ln.Units = []string{"sec/op"}
+					}
+					if s.Units == "ns+Bnew" && ni == 0 && fi == 0 {
+						// the first benchmark reports the second unit in the new file only: in that unit's table its
+						// row has no baseline cell, while the other benchmarks' rows do (and in the first unit's
+						// table its row has one)
+						ln.Units = []string{"ns/op"}
 					}
 					if s.Collide {
 						ln.Name = dsCollideNames[ni]
@@ -397,6 +403,8 @@ func c14Shapes(thorough bool) []dsShape {
 		{Files: 1, Blocks: "notes", Benches: 1, Units: "ns+alt", Reps: 2, Pattern: "equal"},
 		{Files: 2, Blocks: "a", Benches: 2, Units: "ns|sec", Reps: 5, Pattern: "shifted"},
 		{Files: 2, Blocks: "ab", Benches: 2, Units: "sec|ns", Reps: 2, Pattern: "shifted"},
+		{Files: 2, Blocks: "a", Benches: 2, Units: "ns+Bnew", Reps: 5, Pattern: "shifted"},
+		{Files: 2, Blocks: "ab", Benches: 3, Units: "ns+Bnew", Reps: 2, Pattern: "shifted"},
 	}
 	var all []dsShape
 	for _, files := range []int{1, 2, 3} {
